@@ -4,9 +4,13 @@
     an explicit iteration-order oracle: on the pinned tree two oracles give two documents
     (F3); after the fix the emitter is oracle free and keeps source order. The universal
     part is thin by nature; the weight is on the tie (unordered-collection inventory of the
-    current source + byte comparison across fresh processes, threads and repetitions). *)
+    current source + byte comparison across fresh processes, threads and repetitions).
+    On the evaluator model (tied to eval.rs on every run) the evaluation starts from the empty
+    context (no counter, table or scope survives a compilation) and its result does not depend
+    on the fuel: a stratified program has exactly one result ([C06_evaluation_has_one_result]). *)
 From Coq Require Import Permutation.
 From Oal Require Import Oracle OracleProofs.
+From Oal Require Eval Strat TermProofs FuelProofs.
 
 Theorem C06_examples_keep_order : forall ex, map fst (content_examples ex) = map fst ex.
 Proof. exact examples_keep_order. Qed.
@@ -30,3 +34,15 @@ Print Assumptions C06_scope_ids_shift.
 Theorem C06_static_counter_refuted : exists p1 p2, ids_of_second_run_static p1 p2 <> ids_of_run p2.
 Proof. exact scope_ids_static_differs. Qed.
 Print Assumptions C06_static_counter_refuted.
+
+(** * the evaluator: one result per program, whatever the fuel *)
+Theorem C06_result_independent_of_fuel : forall lx P n m rs r,
+  Eval.eval_program lx P n rs = r -> r <> Eval.Fuel -> n <= m -> Eval.eval_program lx P m rs = r.
+Proof. exact FuelProofs.eval_program_fuel_mono. Qed.
+Print Assumptions C06_result_independent_of_fuel.
+
+Theorem C06_evaluation_has_one_result : forall P rs,
+  Strat.stratified P rs = true ->
+  exists N r, r <> Eval.Fuel /\ forall n, N <= n -> Eval.eval_program false P n rs = r.
+Proof. exact TermProofs.stratified_result. Qed.
+Print Assumptions C06_evaluation_has_one_result.
